@@ -670,3 +670,222 @@ impl Engine for SniffRewindEngine {
         rep
     }
 }
+
+// ------------------------------------------------------------------------------------------------
+// The same question one level up: servers built through `Server::builder()` - `with_auto_http()`
+// against `with_http1()` / `with_http2()`, the single-protocol servers a user would build - over the
+// same scripted stream handed out by a one-connection acceptor. The client delivers a first part of
+// its bytes (fragmented), pauses until nothing moves any more, delivers the rest, pauses again and
+// closes. What the client has received is compared at both pauses and at the end: requests that are
+// complete when the client pauses are answered then, whatever follows them in the same read.
+
+impl std::fmt::Debug for ScriptIo {
+    fn fmt(&self, f: &mut std::fmt::Formatter<'_>) -> std::fmt::Result {
+        write!(f, "ScriptIo")
+    }
+}
+impl hyperdriver::info::HasConnectionInfo for ScriptIo {
+    type Addr = hyperdriver::info::DuplexAddr;
+    fn info(&self) -> hyperdriver::info::ConnectionInfo<Self::Addr> {
+        Default::default()
+    }
+}
+
+pub struct OneShotAcceptor(pub Option<ScriptIo>);
+impl hyperdriver::server::conn::Accept for OneShotAcceptor {
+    type Conn = ScriptIo;
+    type Error = std::io::Error;
+    fn poll_accept(mut self: Pin<&mut Self>, _cx: &mut Context<'_>) -> Poll<Result<Self::Conn, Self::Error>> {
+        match self.0.take() {
+            Some(io) => Poll::Ready(Ok(io)),
+            // nobody else ever connects
+            None => Poll::Pending,
+        }
+    }
+}
+
+#[derive(Clone, Copy, Debug, PartialEq)]
+pub enum SrvKind {
+    Auto,
+    H1,
+    H2,
+}
+
+/// (received at the first pause, received at the second pause, received in the end)
+pub fn run_via_server(kind: SrvKind, first: Vec<(Vec<u8>, bool)>, rest: Vec<(Vec<u8>, bool)>) -> (Vec<u8>, Vec<u8>, Vec<u8>) {
+    let rt = tokio::runtime::Builder::new_current_thread().enable_time().start_paused(true).build().unwrap();
+    let state = Arc::new(Mutex::new(IoState { chunks: first.into(), ..Default::default() }));
+    let io = ScriptIo(state.clone());
+    let out = rt.block_on(async {
+        let base = hyperdriver::Server::builder::<hyperdriver::Body>()
+            .with_acceptor(hyperdriver::server::conn::Acceptor::new(OneShotAcceptor(Some(io))))
+            .with_shared_service(tower::service_fn(handle::<hyperdriver::Body>));
+        let server = match kind {
+            SrvKind::Auto => tokio::spawn(async move { base.with_auto_http().with_tokio().await.map_err(|e| e.to_string()) }),
+            SrvKind::H1 => tokio::spawn(async move { base.with_http1().with_tokio().await.map_err(|e| e.to_string()) }),
+            SrvKind::H2 => tokio::spawn(async move { base.with_http2().with_tokio().await.map_err(|e| e.to_string()) }),
+        };
+        // until nothing moves any more: no reads, no writes, no chunk consumed during 40 turns
+        let settle = |state: Arc<Mutex<IoState>>| async move {
+            let mut last = (usize::MAX, usize::MAX, usize::MAX);
+            let mut stable = 0;
+            for _ in 0..4000 {
+                tokio::task::yield_now().await;
+                let now = {
+                    let s = state.lock().unwrap();
+                    (s.reads.len() + s.eof_reads, s.written.len() + s.unflushed.len(), s.chunks.len())
+                };
+                if now == last {
+                    stable += 1;
+                    if stable >= 40 {
+                        break;
+                    }
+                } else {
+                    stable = 0;
+                    last = now;
+                }
+            }
+        };
+        settle(state.clone()).await;
+        let snap1 = state.lock().unwrap().written.clone();
+        {
+            let mut s = state.lock().unwrap();
+            s.chunks.extend(rest);
+            if let Some(w) = s.read_waker.take() {
+                drop(s);
+                w.wake();
+            }
+        }
+        settle(state.clone()).await;
+        let snap2 = state.lock().unwrap().written.clone();
+        {
+            let mut s = state.lock().unwrap();
+            s.closed = true;
+            if let Some(w) = s.read_waker.take() {
+                drop(s);
+                w.wake();
+            }
+        }
+        settle(state.clone()).await;
+        server.abort();
+        let fin = state.lock().unwrap().written.clone();
+        (snap1, snap2, fin)
+    });
+    drop(rt);
+    out
+}
+
+#[derive(Clone, Debug, Serialize, Deserialize, PartialEq)]
+pub struct SrvSniffCase {
+    pub stream: StreamSpec,
+    pub cuts: Vec<u8>,
+    pub pendings: u32,
+    pub tail: u16,
+    /// the client pauses after this many bytes (scaled to the length of the stream: 65535 = all of it)
+    pub pause_at: u16,
+}
+
+pub struct SrvSniffEngine;
+
+impl Engine for SrvSniffEngine {
+    type Case = SrvSniffCase;
+    fn name(&self) -> &'static str {
+        "srvsniff"
+    }
+    fn run_case(&self, c: &SrvSniffCase) -> CaseReport {
+        let mut rep = CaseReport::default();
+        let _ = crate::panichook::take_all();
+        let bytes = render(&c.stream);
+        let is_h2 = bytes.len() >= PREFACE.len() && &bytes[..PREFACE.len()] == PREFACE;
+        let pause = ((c.pause_at as usize) * (bytes.len() + 1)) >> 16;
+        let pause = pause.min(bytes.len());
+        let plan = chunk_plan(&bytes, &c.cuts, c.pendings, c.tail);
+        // split the plan at the pause
+        let (mut first, mut rest) = (vec![], vec![]);
+        let mut pos = 0;
+        for (data, pend) in plan {
+            if pos + data.len() <= pause {
+                pos += data.len();
+                first.push((data, pend));
+            } else if pos >= pause {
+                pos += data.len();
+                rest.push((data, pend));
+            } else {
+                let k = pause - pos;
+                pos += data.len();
+                first.push((data[..k].to_vec(), pend));
+                rest.push((data[k..].to_vec(), false));
+            }
+        }
+        let reference = if is_h2 { SrvKind::H2 } else { SrvKind::H1 };
+        let auto = run_via_server(SrvKind::Auto, first.clone(), rest.clone());
+        let plain = run_via_server(reference, first.clone(), rest.clone());
+        // hyper's own behaviour on malformed input may depend on read boundaries: exact equality only
+        // where the reference answers the same when it gets the two parts in one piece each
+        let plain_whole = run_via_server(reference, if pause > 0 { vec![(bytes[..pause].to_vec(), false)] } else { vec![] }, if pause < bytes.len() { vec![(bytes[pause..].to_vec(), false)] } else { vec![] });
+        let ones = |part: &[u8]| -> Vec<(Vec<u8>, bool)> { part.iter().map(|b| (vec![*b], false)).collect() };
+        let plain_ones = run_via_server(reference, ones(&bytes[..pause]), ones(&bytes[pause..]));
+        // (the auto-detecting server hands the sniffed bytes to hyper in one piece, whatever the pauses were)
+        let plain_at_once = run_via_server(reference, if bytes.is_empty() { vec![] } else { vec![(bytes.clone(), false)] }, vec![]);
+        let same = |a: &(Vec<u8>, Vec<u8>, Vec<u8>), b: &(Vec<u8>, Vec<u8>, Vec<u8>)| normalise(&a.0) == normalise(&b.0) && normalise(&a.1) == normalise(&b.1) && normalise(&a.2) == normalise(&b.2);
+        let invariant = same(&plain, &plain_whole) && same(&plain, &plain_ones) && normalise(&plain.2) == normalise(&plain_at_once.2);
+        let desc = format!(
+            "input {} delivered as {:?}, pause, {:?}, pause, close",
+            show(&bytes),
+            first.iter().map(|(d, _)| d.len()).collect::<Vec<_>>(),
+            rest.iter().map(|(d, _)| d.len()).collect::<Vec<_>>()
+        );
+        for (loc, msg) in crate::panichook::take_all() {
+            if crate::panichook::in_library(&loc) {
+                rep.violate("C08/server-builder/panic-in-library", format!("{desc}: panic at {loc}: {msg}"));
+            }
+        }
+        // while all the client has sent is a strict prefix of the preface, the protocol is undecided: the
+        // auto-detecting server rightly waits where an HTTP/1 server already answers
+        let undecided = |n: usize| n < PREFACE.len() && bytes[..n] == PREFACE[..n];
+        if invariant {
+            for (what, a, p, skip) in [("at the first pause", &auto.0, &plain.0, undecided(pause)), ("at the second pause", &auto.1, &plain.1, undecided(bytes.len())), ("in the end", &auto.2, &plain.2, false)] {
+                if skip {
+                    rep.class("pause-while-protocol-undecided");
+                    continue;
+                }
+                if normalise(a) != normalise(p) {
+                    rep.violate(
+                        "C08/server-builder/differs-from-single-protocol-server",
+                        format!("{desc}: {what} the client of the with_auto_http() server had received {:?}, the client of the {} server {:?}", brief(&normalise(a)), if is_h2 { "with_http2()" } else { "with_http1()" }, brief(&normalise(p))),
+                    );
+                    break;
+                }
+            }
+        } else {
+            rep.class("reference-itself-fragmentation-sensitive");
+        }
+        rep.class("server-builder");
+        if pause > 0 && pause < bytes.len() {
+            rep.class("client-pauses-mid-stream");
+        }
+        if !plain.0.is_empty() && pause < bytes.len() {
+            rep.class("answer-before-the-rest-arrives");
+        }
+        if is_h2 {
+            rep.class("expects-h2");
+        }
+        rep.nontrivial = pause > 0 && pause < bytes.len() && invariant;
+        rep.total_ops = (first.len() + rest.len()) as u64;
+        rep
+    }
+}
+
+pub fn srv_strategy() -> impl proptest::strategy::Strategy<Value = SrvSniffCase> {
+    use proptest::prelude::*;
+    let stream = prop_oneof![
+        5 => (0u8..8, 0u8..8, prop_oneof![3 => Just(0u16), 2 => 1u16..200], prop_oneof![1 => Just(false), 2 => Just(true)], any::<bool>())
+            .prop_map(|(method, target, body, pipelined, close)| StreamSpec::H1 { method, target, body, pipelined, close }),
+        3 => (any::<bool>(), 0u8..4, prop_oneof![1 => Just(0u16), 2 => 1u16..300], any::<bool>())
+            .prop_map(|(post, path, body, extra_settings)| StreamSpec::H2 { post, path, body, extra_settings }),
+        1 => (0u8..=24, prop_oneof![Just(vec![]), Just(b" / HTTP/1.1\r\nhost: a.test\r\n\r\n".to_vec()), Just(b"X".to_vec())]).prop_map(|(n, then)| StreamSpec::Prefix { n, then }),
+    ];
+    let cuts = prop_oneof![2 => proptest::collection::vec(1u8..=32, 0..8), 1 => Just(vec![1u8; 32]), 1 => (1u8..=31).prop_map(|k| vec![k])];
+    (stream, cuts, prop_oneof![Just(0u32), any::<u32>()], prop_oneof![Just(0u16), 1u16..64], prop_oneof![1 => Just(0u16), 1 => Just(u16::MAX), 6 => any::<u16>()])
+        .prop_map(|(stream, cuts, pendings, tail, pause_at)| SrvSniffCase { stream, cuts, pendings, tail, pause_at })
+}
